@@ -95,6 +95,7 @@ class ModelIndex(object):
         self.generation = 0
         self.history = {0: ([], list(self.field_names))}
         self.ever_removed = set()
+        self.next_group = 0
 
     def snapshot(self):
         return (list(self.docs), list(self.field_names))
@@ -126,8 +127,8 @@ class ModelWriter(object):
         return d
 
     def start_group(self):
-        self._groupno += 1
-        self._group = (id(self), self._groupno)
+        self.mi.next_group += 1
+        self._group = self.mi.next_group
 
     def end_group(self):
         self._group = None
@@ -277,7 +278,7 @@ def _eq(a, b):
     if isinstance(a, float) and isinstance(b, float):
         if a != a and b != b:
             return True
-        return a == b and (a != 0 or str(a) == str(b))
+        return a == b  # -0.0 == 0.0: numerically unchanged
     if type(a) != type(b):
         if isinstance(a, (int, float)) and isinstance(b, (int, float)) \
                 and not isinstance(a, bool) and not isinstance(b, bool):
